@@ -28,6 +28,8 @@ def run(rep, W, ctx):
     S.s_newclient(rep, W)
     H.c15_refuse(rep, W, modules=("add_version",))               # .. nor does the handler turn a valid request away for a reason the protocol does not know
     S.s_failmodes(rep, W, ops=("add_version",), methods=("get_client", "add_version", "new_client", "commit"))              # "accepted exactly when": no further way for a valid request to fail
+    from rules import wiring as WR
+    WR.c06_accum(rep, W, modules=("add_version",))   # "stored with exactly the submitted payload": the body is read whole, to the end of the stream
     S.s_mematomic(rep, W)              # in memory, a failed append must not have moved the latest pointer
     # "the response carries a new version id ... / names the current latest": the AddVersion handler's outcome table
     H.c14_tables(rep, W, modules=("add_version",))
